@@ -189,6 +189,14 @@ impl Point {
             let s2 = y2_z1.fp_mul(&z1_sqr);
             let h = u2.fp_sub(&u1);
             let r = s2.fp_sub(&s1);
+            if h.is_zero() {
+                // same x: either the same point in another representation, or opposite points
+                return if r.is_zero() {
+                    self.point_dbl()
+                } else {
+                    Point::zero()
+                };
+            }
             let hh = h.fp_sqr();
             let hhh = hh.fp_mul(&h);
             let v = u1.fp_mul(&hh);
